@@ -389,6 +389,8 @@ class SsbGraphMinimizer:
                     # Common end label
                     if len(v.out_edges()) < 2:
                         continue
+                    # The graph was changed since the last query (edges are renumbered when others are deleted).
+                    find_first_common_next_vertex_in_edges__clear_cache(g)
                     result = find_first_common_next_vertex_in_edges(g, v.out_edges())
                     if result is not None:
                         end_vertex = result[0].target_vertex
@@ -655,6 +657,8 @@ class SsbGraphMinimizer:
             # we can allow open branches, because we know all other branches will either also break
             # or loop
             # we don't allow loops, because the breaks of the nested loop might lead to some really nasty edge cases.
+            # This query uses other options than the ones before, the cache does not tell them apart.
+            find_first_common_next_vertex_in_edges__clear_cache(start.graph)
             breaks = find_first_common_next_vertex_in_edges(
                 start.graph, immediate_breaks, allow_open_branches=True, allow_loops=False, allow_loop_edges=False
             )
